@@ -306,7 +306,8 @@ class GroupBy:
         codes_list, unique_list = zip(*chunk_results)
 
         if use_monotonic_piece:
-            codes_list = [mono_codes, *codes_list]
+            # same integer type as the other chunks, which hold -1 for null keys
+            codes_list = [mono_codes.astype(np.int64), *codes_list]
             unique_list = [mono_uniques, *unique_list]
 
         self._result_index = pd.Index(np.concatenate(unique_list)).drop_duplicates()
